@@ -33,9 +33,9 @@ def two_candles():
     return c1, c2
 
 
-def run_mode(repo, mode, samples):
-    """abstract execution of one 2-minute span with one resting order at price p; returns fill events (price, time)"""
-    case = S.SimCase(["p"])
+def run_mode(repo, mode, samples, prices=("p",)):
+    """abstract execution of one 2-minute span with resting orders at the given price atoms; returns fill events (price, time)"""
+    case = S.SimCase(list(prices))
 
     def mk(dec):
         it = S.build(repo, case, samples, dec)
@@ -72,7 +72,7 @@ def _work(args):
     for rank in ranks:
         samples = embeddings(rank, 2)
         for s in samples:
-            s.update({"v1": F(2), "v2": F(3), "cp0": F(1), "now": F(T1), "t_created": F(0), "q0": F(1), "qr": F(1)})
+            s.update({"v1": F(2), "v2": F(3), "cp0": F(1), "now": F(T1), "t_created": F(0), "q0": F(1), "q1": F(1), "qr": F(1)})
         res = {}
         err = None
         for mode in ("normal", "fast"):
@@ -252,3 +252,41 @@ CLAIM = {
             "Not decided: whole-session output equality for arbitrary strategies.",
     "note": "Trusted: interpreter semantics; a span = 2 minutes, 1 order; quick tier samples every 4th ordering (thorough: all 8308).",
 }
+
+
+# ------------------------------------------------------------------ used by C02: no touched order is left unfilled at the end of a fast-mode chunk
+def _work2(args):
+    root, ranks = args
+    repo = Repo(root)
+    out = []
+    for rank in ranks:
+        samples = embeddings(rank, 2)
+        for s in samples:
+            s.update({"v1": F(2), "v2": F(3), "cp0": F(1), "now": F(T1), "t_created": F(0), "q0": F(1), "q1": F(1), "qr": F(1)})
+        try:
+            outs = run_mode(repo, "fast", samples, prices=("p", "r"))
+        except AnalysisError as e:
+            out.append((rank, None, str(e)))
+            continue
+        res = []
+        for o in outs:
+            s = o.interp.samples[0] if o.interp.samples else samples[0]
+            fills = [(e[1], o.interp.numeric(e[3], s)) for e in o.events if e[0] == "fill"]
+            res.append((o.kind, fills))
+        out.append((rank, res, None))
+    return out
+
+
+def fast_chunk_two_orders(repo, tier):
+    """yield (ordering description, sample, [(kind, fills)]) for a two-minute fast-mode chunk with two resting orders (p < r)"""
+    ranks = list(weak_orderings(SYMS + ["r"], CONS + [("p", "<", "r")]))
+    if tier == "quick":
+        ranks = ranks[::12]
+    chunk = max(1, len(ranks) // 64)
+    jobs = [(repo.root, ranks[i:i + chunk]) for i in range(0, len(ranks), chunk)]
+    with ProcessPoolExecutor(max_workers=min(16, os.cpu_count() or 1)) as ex:
+        for res in ex.map(_work2, jobs):
+            for rank, r, err in res:
+                if err:
+                    raise AnalysisError(err)
+                yield rank, embeddings(rank, 1)[0], r
